@@ -217,7 +217,7 @@ impl Prop for C27 {
     }
     fn cases(&self, tier: Tier) -> u64 {
         match tier {
-            Tier::Quick => 12_000,
+            Tier::Quick => 48_000,
             Tier::Thorough => 400_000,
         }
     }
@@ -379,7 +379,7 @@ impl Prop for C28 {
     }
     fn cases(&self, tier: Tier) -> u64 {
         match tier {
-            Tier::Quick => 20_000,
+            Tier::Quick => 80_000,
             Tier::Thorough => 600_000,
         }
     }
